@@ -128,7 +128,8 @@ func Harness_C09_Sym() {
 	var arms []c09Arm
 	for j := 0; j < k; j++ {
 		d := verifByte("arm" + itoaV(j))
-		verifAssume(d >= '0' && d < byte('0'+n))
+		verifAssume(d >= '0')
+		verifAssume(d < byte('0'+n))
 		form := 0
 		if uniform == 1 {
 			form = 1 + verifChoice("form"+itoaV(j), 2)
@@ -190,7 +191,8 @@ func Harness_C09_Nested() {
 // later function, or a match nested inside an arm of another)
 func Harness_C09_TwoMatches() {
 	n := 3
-	shape := verifChoice("shape", 3) // 0: two functions, 1: inner match nested in an arm of the outer, 2: two functions in two files
+	shape := verifChoice("shape", 5) // 0: two functions, 1: inner match nested in an arm of the outer, 2: two functions in two files,
+	// 3: inner match as the final expression of an arm that is followed by the outer match's default arm, 4: the same, inner match bound by let
 	// which cases each match names (non-empty subsets by bit mask)
 	m1 := 1 + verifChoice("mask1", 7)
 	m2 := 1 + verifChoice("mask2", 7)
@@ -228,6 +230,17 @@ func Harness_C09_TwoMatches() {
 				src += "  | Kase" + itoaV(i) + " -> 1\n"
 			}
 		}
+		files, contents = []string{"t.fo"}, []string{src}
+	case 3, 4:
+		// the outer match is defaulted, so only the inner one decides
+		accept = m2 == full
+		src := "package main\n\n" + typ + "let f (u:U) (w:U) =\n  match u with\n  | Kase1 -> 1\n  | Kase0 ->\n"
+		if shape == 3 {
+			src += "    match w with\n" + arms(m2, "    ", "2")
+		} else {
+			src += "    let k = match w with\n" + arms(m2, "            ", "2") + "    k + 1\n"
+		}
+		src += "  | _ -> 9\n"
 		files, contents = []string{"t.fo"}, []string{src}
 	case 2:
 		a := "package main\n\n" + typ + "let f (u:U) =\n  match u with\n" + arms(m1, "  ", "1") + "\n"
